@@ -6,14 +6,32 @@ Four kinds of cases (all on generated table collections, VALID OR NOT):
                (separate reader/writer handles on a regular file, one "w+b" handle, pipe, socketpair); the model is a
                FIFO of snapshots; stream offsets are compared with the kastore headers read independently; the load
                after the last object must raise EOFError (and a truncated object must NOT).
-  path         per-object path/pathlib/file-object dumps, independent kastore parse of the written bytes against the
-               dict encoding, skip_tables / skip_reference_sequence loads, a re-encoding of the file with 64-bit offset
-               columns, overwriting a path with a smaller object.
-  interchange  copy / pickle (protocols 0..5) / asdict->fromdict (also force_offset_64, optional keys removed),
-               per-table copy/pickle, TreeSequence dump_tables / tables / load_tables / dump+load / pickle.
+  path         per-object dumps in every argument form, independent kastore parse of the written bytes against the
+               dict encoding (and file_uuid against the stored uuid), loads in every argument form, skip_tables /
+               skip_reference_sequence loads, a re-encoding of the file with 64-bit offset columns (all or a subset),
+               the same store without one optional key (earlier format versions), the second object of a two-object
+               file loaded from a positioned handle with and without skip options, overwriting a path.
+  interchange  copy / copy.copy / copy.deepcopy / pickle (protocols 0..5) / asdict->fromdict (also force_offset_64,
+               through _tskit.LightweightTableCollection, optional keys removed or None, numeric forms of
+               sequence_length), the indexes property, per-table copy/pickle/copy module (columns AND the schema text
+               as stored, and copy.equals(original)), TreeSequence dump_tables / tables / load_tables / dump+load /
+               pickle / copy module, and the loaded TreeSequence's own accessors against the stored columns.
   equality     pairs (a, b), b = a with 1-2 field classes perturbed, x subsets of the six ignore_* flags: equals()
                must equal the documented prediction, assert_equals() must raise AssertionError iff equals() is False;
                same per table (ignore_metadata / ignore_timestamps) and for TreeSequence.equals.
+  chain        a history on ONE object: 3-6 transports applied one after the other, each to the RESULT of the previous
+               one (path / file-object / fd dump+load, tskit.load, pickle, copy.copy/deepcopy, copy(), dict, 64-bit
+               dict, LightweightTableCollection, TreeSequence pickle / load_tables, and "touch": the same rows appended
+               to the travelling object and to a never-serialised twin); after every step the object must be
+               column-byte-wise the original and equals()/assert_equals() must say so.
+  large        structurally extreme objects, forced (not left to chance): > 65535 rows, one ragged entry > 64 KiB,
+               ragged columns > 64 KiB, MiB-sized reference sequence, > 64 KiB url / top-level metadata / schema text /
+               time units / provenance record, >= 65536 indexed edges; through path, pickle, copy, dict, equals and a
+               pipe or socketpair fed by `cat` (objects far larger than the kernel buffer, several back to back).
+
+Argument forms (lib/props/c05_forms.py): every path-like (str, bytes, pathlib, other os.PathLike, keyword) and every
+handle form (buffered file object, raw unbuffered file object, integer descriptor; for reading from a socketpair also the
+socket object itself) is drawn for dumps and loads, on single files and on multi-object streams.
 
 EITHER zones (documentation leaves them open, so nothing is asserted):
   * stream position after a load with skip_tables / skip_reference_sequence (documented as unsupported for streaming) —
@@ -25,6 +43,7 @@ EITHER zones (documentation leaves them open, so nothing is asserted):
   * row metadata / top-level metadata are arbitrary bytes only where no schema is set; under a schema the bytes are
     codec-valid (otherwise assert_equals surfaces the codec's own exception, which the docs do not rule out).
 """
+import copy as copymod
 import fcntl
 import itertools
 import json
@@ -36,15 +55,18 @@ import random
 import shutil
 import socket
 import struct
+import subprocess
 import tempfile
 
+import _tskit
 import numpy as np
 import tskit
 
 from lib import gen
 from lib.harness import case_rng
 from lib.model import RowModel
-from lib.tsk import SPEC, columns_from_rows, from_tables, tables_bytes
+from lib.props import c05_forms as forms
+from lib.tsk import SPEC, columns_from_rows, from_tables, pack_ragged, tables_bytes
 
 ID = "C05"
 
@@ -55,8 +77,12 @@ META_TABLES = ("nodes", "edges", "sites", "mutations", "individuals", "populatio
 
 def cases(tier, seed):
     n = 200000 if tier == "quick" else 3000000
-    kinds = ("stream", "stream", "stream", "path", "path", "interchange", "interchange", "interchange",
-             "equality", "equality")
+    # 40-cycle: stream 10, path 7, interchange 9, equality 7, chain 5, large 2 (a large case costs ~10 ordinary ones)
+    kinds = ("stream", "path", "interchange", "equality", "chain", "stream", "interchange", "path",
+             "stream", "equality", "interchange", "large", "stream", "path", "chain", "equality",
+             "interchange", "stream", "path", "interchange", "stream", "equality", "chain", "path",
+             "interchange", "stream", "equality", "interchange", "stream", "path", "chain", "large",
+             "equality", "stream", "interchange", "path", "stream", "equality", "interchange", "chain")
     for k in range(n):
         yield {"gen": kinds[k % len(kinds)], "k": k}
 
@@ -167,7 +193,9 @@ def gen_arb(rng, min_prov=0, allow_big=True):
         else:
             m = gen.gen_full(rng, max_nodes=8, max_bp=4, max_sites=5, migrations=True)
     else:
-        m = RowModel(rng.choice([1.0, 0.5, 3.0, 1e-300, 1e300, 0.1, 7.25, 2.0 ** 40 + 0.5, 5e-324]))
+        # "positive sequence length" includes +inf, the smallest subnormal and the largest finite double
+        m = RowModel(rng.choice([1.0, 0.5, 3.0, 1e-300, 1e300, 0.1, 7.25, 2.0 ** 40 + 0.5, 5e-324, math.inf,
+                                 1.7976931348623157e308]))
     if mode == "junk":
         for name in RowModel.TABLES:
             n = rng.choice([0, 0, 1, 2, 3, 5, 12]) if not big else rng.choice([0, 40, 300, 1100])
@@ -347,14 +375,15 @@ def strip(d, prefixes):
 class Snap:
     """Everything observable about an original object, taken once."""
 
-    def __init__(self, tc):
+    def __init__(self, tc, light=False):
         self.tb = tb_dict(tc)
-        self.cm = canon_model(from_tables(tc))
+        self.cm = None if light else canon_model(from_tables(tc))
         self.has_index = tc.has_index()
 
 
-def same(ctx, what, got, snap, drop=(), model=None):
-    """Monitor: `got` (a TableCollection) is column-byte-wise the snapshot (minus `drop` prefixes)."""
+def same(ctx, what, got, snap, drop=(), model=None, light=False):
+    """Monitor: `got` (a TableCollection) is column-byte-wise the snapshot (minus `drop` prefixes).
+    light=True leaves out the row-by-row read-back (used for the very large objects, where it is done once)."""
     ctx.count("same:" + what)
     ok = True
     a, b = strip(tb_dict(got), drop), strip(snap.tb, drop)
@@ -364,6 +393,11 @@ def same(ctx, what, got, snap, drop=(), model=None):
         ctx.violation(f"{what}/differs{_generic(k)}",
                       f"{what}: key {k}: got {_short(a.get(k))} expected {_short(b.get(k))} (all differing: {ks[:8]})")
         ok = False
+    if light:
+        if not drop and got.has_index() != snap.has_index:
+            ctx.violation(f"{what}/index-presence", f"{what}: has_index()={got.has_index()} original {snap.has_index}")
+            ok = False
+        return ok
     if not drop:
         cm = canon_model(from_tables(got))
         if cm != snap.cm:
@@ -586,6 +620,38 @@ def tc_of(x):
     return x.dump_tables() if isinstance(x, tskit.TreeSequence) else x
 
 
+# name -> (callable, name of its file parameter)
+LOADERS = {"tskit.load": (tskit.load, "file"),
+           "TreeSequence.load": (tskit.TreeSequence.load, "file_or_path"),
+           "TableCollection.load": (tskit.TableCollection.load, "file_or_path")}
+
+
+def load_at_offset(ctx, rng, p, offset, o, what):
+    """Object `o` starts at byte `offset` > 0 of the seekable multi-object file p: a handle positioned there loads exactly
+    that object, with or without skip options (only the position AFTER a skip load is an EITHER zone)."""
+    skip_tables, skip_refseq = rng.choice([(False, False), (True, False), (False, True), (True, True)])
+    as_ts = rng.random() < 0.5 and (o.ts_loadable or skip_tables)
+    lname = rng.choice(["tskit.load", "TreeSequence.load"]) if as_ts else "TableCollection.load"
+    loader, kwname = LOADERS[lname]
+    how = rng.choice(forms.HANDLE_FORMS)
+    kw = {}
+    if skip_tables or rng.random() < 0.3:
+        kw["skip_tables"] = skip_tables
+    if skip_refseq or rng.random() < 0.3:
+        kw["skip_reference_sequence"] = skip_refseq
+    ctx.count("load-at-offset")
+    ctx.feature("at-offset:" + ("skip_tables" if skip_tables else "") + ("+skip_refseq" if skip_refseq else "")
+                if (skip_tables or skip_refseq) else "at-offset:full")
+    ok, got = guarded(ctx, f"{what}/{lname}/{how}", forms.load_form, loader, kwname, p, how, offset=offset, **kw)
+    if not ok:
+        return
+    got = tc_of(got)
+    if skip_tables or skip_refseq:
+        check_skip(ctx, o, got, skip_tables, skip_refseq, as_ts, what=what)
+    else:
+        same(ctx, what, got, o.snap)
+
+
 def run_stream(case, ctx, rng, tmp):
     nobj = rng.choice([1, 2, 2, 3, 3, 4, 5, 6])
     objs = [Obj(rng, ctx) for _ in range(nobj)]
@@ -607,8 +673,12 @@ def run_stream(case, ctx, rng, tmp):
     path = os.path.join(tmp, "stream.bin")
     sock = None
     if transport == "file2":
-        w = open(path, "wb")
-        r = open(path, "rb")
+        # buffered (default) or raw unbuffered Python file objects
+        raw = rng.random() < 0.3
+        if raw:
+            ctx.feature("stream-handle:raw")
+        w = open(path, "wb", buffering=0) if raw and rng.random() < 0.7 else open(path, "wb")
+        r = open(path, "rb", buffering=0) if raw and rng.random() < 0.7 else open(path, "rb")
     elif transport == "file1":
         w = r = open(path, "w+b")
     elif transport == "pipe":
@@ -626,6 +696,25 @@ def run_stream(case, ctx, rng, tmp):
         w, r = sa.makefile("wb"), sb.makefile("rb")
         sock = (sa, sb)
     seekable = transport in ("file2", "file1")
+
+    # ARGUMENT FORM of the stream, drawn per call: the Python handle, its integer descriptor (tskit must not close
+    # it: the next call uses the same descriptor), and for reading from a socketpair the socket object itself.
+    def warg():
+        if rng.random() < 0.3:
+            ctx.feature("stream-arg:fd")
+            return w.fileno(), "fd"
+        return w, "obj"
+
+    def rarg():
+        x = rng.random()
+        if x < 0.3:
+            ctx.feature("stream-arg:fd")
+            return r.fileno(), "fd"
+        if sock is not None and x < 0.5:
+            ctx.feature("stream-arg:socket-object")
+            return sock[1], "sockobj"
+        return r, "obj"
+
     try:
         pending = list(range(nobj))
         fifo = []
@@ -644,7 +733,8 @@ def run_stream(case, ctx, rng, tmp):
             if do_dump:
                 j = pending.pop(0)
                 ctx.count("stream-dump")
-                ok, _ = guarded(ctx, f"stream-dump/{transport}", objs[j].dumper.dump, w)
+                wa, wform = warg()
+                ok, _ = guarded(ctx, f"stream-dump/{transport}/{wform}", objs[j].dumper.dump, wa)
                 if not ok:
                     return
                 written += sizes[j]
@@ -662,10 +752,11 @@ def run_stream(case, ctx, rng, tmp):
             j = fifo.pop(0)
             o = objs[j]
             as_ts = o.ts_loadable and rng.random() < 0.5
-            loader = tskit.load if as_ts else tskit.TableCollection.load
-            lname = "tskit.load" if as_ts else "TableCollection.load"
+            lname = rng.choice(["tskit.load", "tskit.load", "TreeSequence.load"]) if as_ts else "TableCollection.load"
+            loader = LOADERS[lname][0]
             ctx.count("stream-load")
-            ok, got = guarded(ctx, f"stream-load/{transport}/{lname}", loader, r)
+            ra, rform = rarg()
+            ok, got = guarded(ctx, f"stream-load/{transport}/{lname}/{rform}", loader, ra)
             if not ok:
                 return
             consumed += sizes[j]
@@ -679,7 +770,7 @@ def run_stream(case, ctx, rng, tmp):
                                   f"first {j + 1} objects occupy {consumed} bytes")
                 # premature end-of-stream probe on a regular file whose reader has caught up with the writer
                 if transport == "file2" and not fifo and pending and rng.random() < 0.5:
-                    expect_eof(ctx, transport + "/caught-up", r, rng, objs)
+                    expect_eof(ctx, transport + "/caught-up", rarg()[0], rng, objs)
                     if r.tell() != consumed:
                         ctx.violation("stream/eof-moved-offset", f"EOFError load moved the offset to {r.tell()}")
         # end of stream
@@ -687,8 +778,8 @@ def run_stream(case, ctx, rng, tmp):
             w.close()
         if sock is not None:
             sock[0].close()
-        expect_eof(ctx, transport, r, rng, objs)
-        expect_eof(ctx, transport, r, rng, objs)
+        expect_eof(ctx, transport, rarg()[0], rng, objs)
+        expect_eof(ctx, transport, rarg()[0], rng, objs)
         if seekable:
             r.seek(0)
             b = r.read()
@@ -704,6 +795,11 @@ def run_stream(case, ctx, rng, tmp):
                 if pos not in exp:
                     r.seek(pos)
                     expect_not_eof(ctx, "misaligned-start", r, rng)
+            # an object in the MIDDLE of a seekable multi-object file, from a fresh handle positioned at its start,
+            # with and without skip options
+            if nobj >= 2 and bounds == exp:
+                k = rng.randrange(1, nobj)
+                load_at_offset(ctx, rng, path, exp[k], objs[k], "stream-load-at-offset")
     finally:
         for f in (w, r):
             try:
@@ -726,7 +822,8 @@ def run_stream(case, ctx, rng, tmp):
 
 
 def expect_eof(ctx, what, f, rng, objs):
-    loader, lname = rng.choice([(tskit.load, "tskit.load"), (tskit.TableCollection.load, "TableCollection.load")])
+    lname = rng.choice(sorted(LOADERS))
+    loader = LOADERS[lname][0]
     ctx.count("eof")
     try:
         got = loader(f)
@@ -740,7 +837,8 @@ def expect_eof(ctx, what, f, rng, objs):
 
 
 def expect_not_eof(ctx, what, f, rng):
-    loader, lname = rng.choice([(tskit.load, "tskit.load"), (tskit.TableCollection.load, "TableCollection.load")])
+    lname = rng.choice(sorted(LOADERS))
+    loader = LOADERS[lname][0]
     ctx.count("not-eof")
     try:
         got = loader(f)
@@ -756,71 +854,122 @@ def expect_not_eof(ctx, what, f, rng):
 # case: path
 # =============================================================================================
 
+# keys a store may lack (files written by earlier minor versions of the format): (where, key) -> kastore keys.
+# The loader documents them as optional columns (c/tskit/tables.c, TSK_COL_OPTIONAL); absent means "default".
+FILE_OPTIONAL = {
+    ("top", "metadata"): ["metadata"], ("top", "metadata_schema"): ["metadata_schema"],
+    ("top", "time_units"): ["time_units"],
+    ("top", "reference_sequence"): ["reference_sequence/data", "reference_sequence/url",
+                                    "reference_sequence/metadata", "reference_sequence/metadata_schema"],
+    ("top", "indexes"): ["indexes/edge_insertion_order", "indexes/edge_removal_order"],
+    ("edges", "metadata"): ["edges/metadata", "edges/metadata_offset"],
+    ("migrations", "metadata"): ["migrations/metadata", "migrations/metadata_offset"],
+    ("individuals", "parents"): ["individuals/parents", "individuals/parents_offset"],
+    ("mutations", "time"): ["mutations/time"],
+}
+for _n in META_TABLES:
+    FILE_OPTIONAL[(_n, "metadata_schema")] = [_n + "/metadata_schema"]
+
+
 def run_path(case, ctx, rng, tmp):
     o = Obj(rng, ctx)
     ctx.sig(repr(o.snap.cm), nontrivial=o.nrows() > 0)
     p = os.path.join(tmp, "a.trees")
-    how = rng.choice(["str", "pathlib", "fileobj"])
+    how = rng.choice(forms.DUMP_FORMS + (("zlib", "zlib") if o.ts is not None else ()))
     ctx.feature("dump-target:" + how)
-    if how == "str":
-        ok, _ = guarded(ctx, "dump-path", o.dumper.dump, p)
-    elif how == "pathlib":
-        ok, _ = guarded(ctx, "dump-pathlib", o.dumper.dump, pathlib.Path(p))
-    else:
-        with open(p, "wb") as f:
-            ok, _ = guarded(ctx, "dump-fileobj", o.dumper.dump, f)
+    ok, _ = guarded(ctx, "dump-" + how, forms.dump_form, o.dumper, p, how)
     if not ok:
         return
     b = open(p, "rb").read()
     items = check_file_against_dict(ctx, "dump", b, o.tc)
-    # plain loads
-    for lname, loader, target in (("TableCollection.load", tskit.TableCollection.load, p),
-                                  ("TableCollection.load", tskit.TableCollection.load, pathlib.Path(p))):
-        ok, got = guarded(ctx, f"path-load/{lname}", loader, target)
+    # plain loads, every argument form in turn
+    for lform in rng.sample(forms.LOAD_FORMS, 3):
+        ctx.feature("load-source:" + lform)
+        ok, got = guarded(ctx, f"path-load/TableCollection.load/{lform}", forms.load_form,
+                          tskit.TableCollection.load, "file_or_path", p, lform)
         if ok:
             same(ctx, "path-load", got, o.snap)
+            ctx.count("file-uuid")
+            # "The UUID for the file this TableCollection is derived from, or None if not derived from a file"
+            stored = items["uuid"].tobytes().decode() if items is not None and "uuid" in items else None
+            if got.file_uuid != stored or o.tc.file_uuid is not None:
+                ctx.violation("path-load/file-uuid", f"file_uuid of the loaded collection {got.file_uuid!r}, stored in the "
+                              f"file {stored!r}; of the never-stored original {o.tc.file_uuid!r}")
     if o.ts_loadable:
-        ok, got = guarded(ctx, "path-load/tskit.load", tskit.load, p)
+        lname = rng.choice(["tskit.load", "TreeSequence.load"])
+        lform = rng.choice(forms.LOAD_FORMS)
+        ctx.feature("load-source:" + lform)
+        ok, got = guarded(ctx, f"path-load/{lname}/{lform}", forms.load_form, LOADERS[lname][0], LOADERS[lname][1], p, lform)
         if ok:
             same(ctx, "path-load-ts", got.dump_tables(), o.snap)
+            check_ts_surface(ctx, "path-load-ts", got, o.snap)
     # skip options (fresh handle / path only: the stream position afterwards is documented as unusable)
     for skip_tables, skip_refseq in ((True, False), (False, True), (True, True)):
         for as_ts in (False, True):
             if as_ts and not (o.ts_loadable or skip_tables):
                 continue
-            loader = tskit.load if as_ts else tskit.TableCollection.load
+            lname = rng.choice(["tskit.load", "TreeSequence.load"]) if as_ts else "TableCollection.load"
             kw = {"skip_tables": skip_tables, "skip_reference_sequence": skip_refseq}
-            if rng.random() < 0.5:
-                with open(p, "rb") as f:
-                    ok, got = guarded(ctx, "skip-load", loader, f, **kw)
-            else:
-                ok, got = guarded(ctx, "skip-load", loader, p, **kw)
+            if rng.random() < 0.3:       # the False option left to its default
+                kw = {k: v for k, v in kw.items() if v}
+            lform = rng.choice(forms.LOAD_FORMS)
+            ok, got = guarded(ctx, f"skip-load/{lname}/{lform}", forms.load_form, LOADERS[lname][0], LOADERS[lname][1],
+                              p, lform, **kw)
             if not ok:
                 continue
             got = tc_of(got)
             ctx.count("skip-load")
             check_skip(ctx, o, got, skip_tables, skip_refseq, as_ts)
-    # the same content re-encoded with 64-bit offset columns must load to the same tables
     if items is not None:
+        # the same content re-encoded with 64-bit offset columns (all of them, or an arbitrary subset: the width is
+        # chosen per column) must load to the same tables
+        allof = rng.random() < 0.4
+        ctx.feature("offset64-file:" + ("all" if allof else "mixed"))
         it2 = {}
         for k, a in items.items():
-            it2[k] = a.astype(np.uint64) if k.endswith("_offset") else a
+            it2[k] = a.astype(np.uint64) if k.endswith("_offset") and (allof or rng.random() < 0.5) else a
         p64 = os.path.join(tmp, "o64.trees")
         with open(p64, "wb") as f:
             f.write(kas_write(it2))
         ok, got = guarded(ctx, "load-offset64-file", tskit.TableCollection.load, p64)
         if ok:
             same(ctx, "load-offset64-file", got, o.snap)
-        # byte-identical re-encoding by our writer loads too (sanity of the writer itself)
-    # several objects in one file: a path load returns the first
+        # a store without one optional key (group) loads as the original with that part defaulted
+        m0 = from_tables(o.tc)
+        for where, key in rng.sample(sorted(FILE_OPTIONAL), 2):
+            gone = [k for k in FILE_OPTIONAL[(where, key)] if k in items]
+            if not gone:
+                continue
+            exp, exp_index = defaulted(m0, o.snap.has_index, where, key)
+            it3 = {k: a for k, a in items.items() if k not in gone}
+            pl = os.path.join(tmp, "legacy.trees")
+            with open(pl, "wb") as f:
+                f.write(kas_write(it3))
+            ctx.count("file-optional-key")
+            ctx.feature(f"file-without:{where}/{key}")
+            ok, got = guarded(ctx, f"load-file-without/{where}/{key}", tskit.TableCollection.load, pl)
+            if not ok:
+                continue
+            gotm, want = canon_model(from_tables(got)), canon_model(exp)
+            if gotm != want:
+                k = diff_keys(gotm, want)[0]
+                ctx.violation(f"load-file-without/{where}/{key}/differs/{k}",
+                              f"file without {gone}: {k} got {_short(gotm[k])} expected {_short(want[k])}")
+            if got.has_index() != exp_index:
+                ctx.violation(f"load-file-without/{where}/{key}/index-presence",
+                              f"has_index()={got.has_index()} expected {exp_index}")
+    # several objects in one file: a path load returns the first, a handle positioned at the second returns the second
     o2 = Obj(rng, ctx)
     with open(p, "ab") as f:
-        guarded(ctx, "dump-append", o2.dumper.dump, f)
+        ok2, _ = guarded(ctx, "dump-append", o2.dumper.dump, f if rng.random() < 0.6 else f.fileno())
     ok, got = guarded(ctx, "path-load-first", tskit.TableCollection.load, p)
     if ok:
         same(ctx, "path-load-first", got, o.snap)
+    if ok2:
+        load_at_offset(ctx, rng, p, len(b), o2, "path-load-second")
     # overwriting a path truncates it
-    ok, _ = guarded(ctx, "dump-overwrite", o2.dumper.dump, p)
+    how2 = rng.choice(forms.PATH_FORMS)
+    ok, _ = guarded(ctx, "dump-overwrite/" + how2, forms.dump_form, o2.dumper, p, how2)
     if ok:
         b2 = open(p, "rb").read()
         ctx.count("overwrite")
@@ -833,8 +982,68 @@ def run_path(case, ctx, rng, tmp):
             same(ctx, "path-load-overwritten", got, o2.snap)
 
 
-def check_skip(ctx, o, got, skip_tables, skip_refseq, as_ts):
-    what = "skip-load" + ("/tables" if skip_tables else "") + ("/refseq" if skip_refseq else "")
+def check_ts_surface(ctx, what, ts, snap):
+    """A loaded TreeSequence reports the stored content through its OWN accessors too (they are filled from the
+    low-level tree sequence when it is constructed, independently of dump_tables())."""
+    ctx.count("ts-surface")
+    tb = snap.tb
+    pairs = [("nodes_time", "/nodes/time"), ("nodes_flags", "/nodes/flags"), ("nodes_population", "/nodes/population"),
+             ("nodes_individual", "/nodes/individual"), ("edges_left", "/edges/left"), ("edges_right", "/edges/right"),
+             ("edges_parent", "/edges/parent"), ("edges_child", "/edges/child"), ("sites_position", "/sites/position"),
+             ("mutations_site", "/mutations/site"), ("mutations_node", "/mutations/node"),
+             ("mutations_parent", "/mutations/parent"), ("mutations_time", "/mutations/time"),
+             ("migrations_left", "/migrations/left"), ("migrations_right", "/migrations/right"),
+             ("migrations_node", "/migrations/node"), ("migrations_source", "/migrations/source"),
+             ("migrations_dest", "/migrations/dest"), ("migrations_time", "/migrations/time"),
+             ("individuals_flags", "/individuals/flags"),
+             ("indexes_edge_insertion_order", "/indexes/edge_insertion_order"),
+             ("indexes_edge_removal_order", "/indexes/edge_removal_order")]
+    for attr, key in pairs:
+        a = np.asarray(getattr(ts, attr))
+        if key not in tb:
+            continue
+        if (str(a.dtype), a.tobytes()) != tb[key]:
+            ctx.violation(f"{what}/ts-accessor/{attr}", f"{what}: ts.{attr} = {_short(a)} but the stored column {key} is "
+                          f"{_short(np.frombuffer(tb[key][1], dtype=tb[key][0]))}")
+    scal = {"sequence_length": ("/sequence_length", repr(ts.sequence_length)),
+            "time_units": ("/time_units", repr(ts.time_units)),
+            "metadata_schema": ("/metadata_schema", repr(repr(ts.metadata_schema)))}
+    # (the dict encoding leaves out empty top-level metadata / schemas)
+    dflt = {"/metadata": repr(b""), "/metadata_schema": repr("")}
+    if tb.get("/metadata_schema", ("py", repr("")))[1] == repr(""):       # without a schema ts.metadata is the raw bytes
+        scal["metadata"] = ("/metadata", repr(ts.metadata))
+    for name, (key, got) in scal.items():
+        want = tb.get(key, ("py", dflt.get(key)))[1]
+        if got != want:
+            ctx.violation(f"{what}/ts-accessor/{name}", f"{what}: ts.{name} is {got} but the stored value is {want}")
+    has = any(k.startswith("/reference_sequence/") for k in tb)
+    if bool(ts.has_reference_sequence()) != has:
+        ctx.violation(f"{what}/ts-accessor/has_reference_sequence",
+                      f"{what}: ts.has_reference_sequence() = {ts.has_reference_sequence()}, stored: {has}")
+    elif has:
+        rs = ts.reference_sequence
+        for name, got in (("data", rs.data), ("url", rs.url), ("metadata", rs.metadata_bytes),
+                          ("metadata_schema", repr(rs.metadata_schema))):
+            want = tb.get("/reference_sequence/" + name, ("py", repr(b"" if name == "metadata" else "")))[1]
+            if repr(got) != want:
+                ctx.violation(f"{what}/ts-accessor/reference_sequence.{name}",
+                              f"{what}: ts.reference_sequence.{name} is {got!r}, stored {want}")
+    counts = {"num_nodes": "/nodes/flags", "num_edges": "/edges/left", "num_sites": "/sites/position",
+              "num_mutations": "/mutations/site", "num_migrations": "/migrations/left",
+              "num_individuals": "/individuals/flags"}
+    for attr, key in counts.items():
+        n = len(np.frombuffer(tb[key][1], dtype=tb[key][0]))
+        if getattr(ts, attr) != n:
+            ctx.violation(f"{what}/ts-accessor/{attr}", f"{what}: ts.{attr} = {getattr(ts, attr)}, stored rows {n}")
+    npop = len(np.frombuffer(tb["/populations/metadata_offset"][1], dtype=tb["/populations/metadata_offset"][0])) - 1
+    nprov = len(np.frombuffer(tb["/provenances/record_offset"][1], dtype=tb["/provenances/record_offset"][0])) - 1
+    if ts.num_populations != npop or ts.num_provenances != nprov:
+        ctx.violation(f"{what}/ts-accessor/num_populations-provenances",
+                      f"{what}: ts.num_populations={ts.num_populations} ({npop}), num_provenances={ts.num_provenances} ({nprov})")
+
+
+def check_skip(ctx, o, got, skip_tables, skip_refseq, as_ts, what="skip-load"):
+    what = what + ("/tables" if skip_tables else "") + ("/refseq" if skip_refseq else "")
     a, b = tb_dict(got), dict(o.snap.tb)
     if skip_refseq:
         a, b = strip(a, ["/reference_sequence"]), strip(b, ["/reference_sequence"])
@@ -882,10 +1091,35 @@ REQUIRED_KEYS = {
 
 
 def table_bytes(t):
+    """Every column of a table, plus the schema text AS STORED (low-level accessor): the high-level metadata_schema
+    attribute is the parsed schema, whose repr() is tskit's canonical re-serialisation, not the stored bytes."""
     out = {}
     for k, v in t.asdict().items():
         out[k] = (str(v.dtype), v.tobytes()) if isinstance(v, np.ndarray) else ("py", repr(v))
+    if hasattr(t.ll_table, "metadata_schema"):
+        out["metadata_schema(stored)"] = ("py", repr(t.ll_table.metadata_schema))
     return out
+
+
+def via_lwt(d, force64=False):
+    """dict -> _tskit.LightweightTableCollection (the class other extension modules embed to exchange tables with
+    tskit) -> dict -> TableCollection."""
+    lwt = _tskit.LightweightTableCollection()
+    lwt.fromdict(d)
+    d2 = lwt.asdict(force_offset_64=True) if force64 else lwt.asdict()
+    for name in RowModel.TABLES:     # the offset width asked for (no column here needs 64 bits)
+        for k, v in d2[name].items():
+            if k.endswith("_offset") and v.dtype != (np.uint64 if force64 else np.uint32):
+                raise AssertionError(f"LightweightTableCollection.asdict(force_offset_64={force64}): {name}/{k} is {v.dtype}")
+    return tskit.TableCollection.fromdict(d2)
+
+
+def dict_receiver(ctx, rng):
+    if rng.random() < 0.35:
+        ctx.feature("dict-receiver:lwt")
+        return via_lwt
+    ctx.feature("dict-receiver:TableCollection.fromdict")
+    return tskit.TableCollection.fromdict
 
 
 def run_interchange(case, ctx, rng, tmp):
@@ -904,6 +1138,18 @@ def run_interchange(case, ctx, rng, tmp):
         c.reference_sequence.data = "TTTT"
         c.drop_index()
         same(ctx, "copy-independent", tc, o.snap)
+    # the copy module goes through __reduce_ex__ -> __getstate__/__setstate__
+    for cname, fn in (("copy.copy", copymod.copy), ("copy.deepcopy", copymod.deepcopy)):
+        ok, c = guarded(ctx, cname, fn, tc)
+        if ok:
+            same(ctx, cname, c, o.snap)
+    # the index arrays read through the `indexes` property and assigned to a collection that has none
+    ok, c = guarded(ctx, "copy", tc.copy)
+    if ok:
+        c.drop_index()
+        ok, _ = guarded(ctx, "indexes-property", setattr, c, "indexes", tc.indexes)
+        if ok:
+            same(ctx, "indexes-property", c, o.snap)
     # pickle
     for proto in rng.sample(range(0, pickle.HIGHEST_PROTOCOL + 1), 3):
         ctx.feature(f"pickle-protocol:{proto}")
@@ -935,6 +1181,22 @@ def run_interchange(case, ctx, rng, tmp):
         ok, c = guarded(ctx, "fromdict64", tskit.TableCollection.fromdict, d64)
         if ok:
             same(ctx, "fromdict-offset64", c, o.snap)
+    # the LightweightTableCollection end of the interchange, from either offset width, to either offset width
+    ok, d = guarded(ctx, "asdict", tc.asdict, **rng.choice([{}, {"force_offset_64": False}, {"force_offset_64": True}]))
+    if ok:
+        f64 = rng.random() < 0.5
+        ok, c = guarded(ctx, "lwt-roundtrip", via_lwt, d, f64)
+        if ok:
+            same(ctx, "lwt-roundtrip", c, o.snap)
+        # "sequence_length" only has to be a number: a numpy scalar, or an int when the length is integral
+        L = d["sequence_length"]
+        alt = [np.float64(L)] + ([int(L)] if math.isfinite(L) and L == int(L) and L < 2 ** 53 else [])
+        d2 = dict(d)
+        d2["sequence_length"] = rng.choice(alt)
+        ctx.feature("dict-sequence_length:" + type(d2["sequence_length"]).__name__)
+        ok, c = guarded(ctx, "fromdict-numeric-length", dict_receiver(ctx, rng), d2)
+        if ok:
+            same(ctx, "fromdict-numeric-length", c, o.snap)
     check_optional_keys(ctx, rng, o)
     # per table
     for name in RowModel.TABLES:
@@ -945,14 +1207,26 @@ def run_interchange(case, ctx, rng, tmp):
             ctx.count("table-copy")
             if table_bytes(c) != exp:
                 k = diff_keys(table_bytes(c), exp)[0]
-                ctx.violation(f"table-copy/{name}/differs/{k}", f"{name}.copy(): column {k} differs")
+                ctx.violation(f"table-copy/{name}/differs/{k}", f"{name}.copy(): {k} is {_short(table_bytes(c).get(k))}, "
+                              f"original {_short(exp.get(k))}; copy.equals(original) = {c.equals(t)}")
         proto = rng.randrange(0, pickle.HIGHEST_PROTOCOL + 1)
         ok, c = guarded(ctx, f"table-pickle/{name}", lambda: pickle.loads(pickle.dumps(t, proto)))
         if ok:
             ctx.count("table-pickle")
             if table_bytes(c) != exp:
                 k = diff_keys(table_bytes(c), exp)[0]
-                ctx.violation(f"table-pickle/{name}/differs/{k}", f"pickled {name}: column {k} differs")
+                ctx.violation(f"table-pickle/{name}/differs/{k}", f"pickled {name}: {k} is "
+                              f"{_short(table_bytes(c).get(k))}, original {_short(exp.get(k))}; equals() = {c.equals(t)}")
+        cname, fn = rng.choice([("copy.copy", copymod.copy), ("copy.deepcopy", copymod.deepcopy)])
+        ok, c = guarded(ctx, f"table-{cname}/{name}", fn, t)
+        if ok:
+            ctx.count("table-copy-module")
+            if table_bytes(c) != exp or type(c) is not type(t):
+                k = (diff_keys(table_bytes(c), exp) or ["type"])[0]
+                ctx.violation(f"table-{cname}/{name}/differs/{k}", f"{cname}({name}): {k} is "
+                              f"{_short(table_bytes(c).get(k))}, original {_short(exp.get(k))}; equals() = {c.equals(t)}")
+            elif not t.equals(c) or not c.equals(t):
+                ctx.violation(f"table-{cname}/{name}/not-equal", f"{cname}({name}) is byte-identical but equals() is False")
     # tree sequence level
     if o.valid:
         tcx = build_tc(o.m, o.opts)
@@ -982,6 +1256,7 @@ def run_interchange(case, ctx, rng, tmp):
             ok, ts2 = guarded(ctx, "ts-load", tskit.load, p)
             if ok:
                 same(ctx, "ts-dump-load", ts2.dump_tables(), snapx)
+                check_ts_surface(ctx, "ts-dump-load", ts2, snapx)
                 ok, ts3 = guarded(ctx, "ts-load", tskit.TreeSequence.load, p)
                 if ok:
                     same(ctx, "ts-dump-load", ts3.dump_tables(), snapx)
@@ -989,6 +1264,11 @@ def run_interchange(case, ctx, rng, tmp):
         ok, ts2 = guarded(ctx, "ts-pickle", lambda: pickle.loads(pickle.dumps(ts, proto)))
         if ok:
             same(ctx, "ts-pickle", ts2.dump_tables(), snapx)
+            check_ts_surface(ctx, "ts-pickle", ts2, snapx)
+        cname, fn = rng.choice([("copy.copy", copymod.copy), ("copy.deepcopy", copymod.deepcopy)])
+        ok, ts2 = guarded(ctx, "ts-" + cname, fn, ts)
+        if ok:
+            same(ctx, "ts-" + cname, ts2.dump_tables(), snapx)
         # tree_sequence() itself must not alter anything but the index
         same(ctx, "tree_sequence-leaves-tables", tcx, o.snap, drop=("/indexes",))
 
@@ -1007,8 +1287,36 @@ def check_dict_shape(ctx, tc, d, force64):
         ctx.violation("asdict/sequence-length", f"{d['sequence_length']} vs {tc.sequence_length}")
 
 
+def defaulted(m0, has_index, where, key):
+    """(model, index presence) of the collection m0 with the optional part (where, key) at its documented default:
+    empty metadata / schema, time_units "unknown", no reference sequence, no index, NULL ids, unknown mutation
+    times, empty location / parents."""
+    exp = m0.copy()
+    if where == "top":
+        if key == "metadata":
+            exp.metadata = b""
+        elif key == "metadata_schema":
+            exp.metadata_schema = ""
+        elif key == "time_units":
+            exp.time_units = "unknown"
+        elif key == "reference_sequence":
+            exp.refseq = None
+        elif key == "indexes":
+            has_index = False
+        return exp, has_index
+    rows = getattr(exp, where)
+    if key == "metadata_schema":
+        exp.schemas.pop(where, None)
+    else:
+        j = [c for c, _ in SPEC[where]].index(key)
+        dflt = b"" if key == "metadata" else () if key in ("location", "parents") else None if key == "time" else -1
+        setattr(exp, where, [r[:j] + (dflt,) + r[j + 1:] for r in rows])
+    return exp, has_index
+
+
 def check_optional_keys(ctx, rng, o):
-    """fromdict of the dict encoding with ONE optional key (group) removed == the original with that part defaulted."""
+    """fromdict of the dict encoding with ONE optional key (group) removed - or present with the value None, which the
+    interchange format treats the same - == the original with that part defaulted."""
     d = o.tc.asdict()
     m0 = from_tables(o.tc)
     choices = [("top", k) for k in ("metadata", "metadata_schema", "time_units", "reference_sequence", "indexes",
@@ -1017,57 +1325,79 @@ def check_optional_keys(ctx, rng, o):
         choices += [(name, k) for k in ks]
     for where, key in rng.sample(choices, 4):
         d2 = {k: (dict(v) if isinstance(v, dict) else v) for k, v in d.items()}
-        exp = m0.copy()
-        exp_index = o.snap.has_index
+        as_none = rng.random() < 0.5
         if where == "top":
             if key not in d2:
                 continue
-            del d2[key]
-            if key == "metadata":
-                exp.metadata = b""
-            elif key == "metadata_schema":
-                exp.metadata_schema = ""
-            elif key == "time_units":
-                exp.time_units = "unknown"
-            elif key == "reference_sequence":
-                exp.refseq = None
-            elif key == "indexes":
-                exp_index = False
+            if as_none:
+                d2[key] = None
+            else:
+                del d2[key]
         else:
             t = d2[where]
-            t.pop(key, None)
-            rows = getattr(exp, where)
-            if key == "metadata_schema":
-                exp.schemas.pop(where, None)
-            elif key in ("metadata", "location", "parents"):
-                t.pop(key + "_offset", None)
-                j = [c for c, _ in SPEC[where]].index(key)
-                empty = b"" if key == "metadata" else ()
-                setattr(exp, where, [r[:j] + (empty,) + r[j + 1:] for r in rows])
-            elif key == "time":
-                j = [c for c, _ in SPEC[where]].index(key)
-                setattr(exp, where, [r[:j] + (None,) + r[j + 1:] for r in rows])
-            else:  # population, individual, parent -> NULL
-                j = [c for c, _ in SPEC[where]].index(key)
-                setattr(exp, where, [r[:j] + (-1,) + r[j + 1:] for r in rows])
+            gone = [key] + ([key + "_offset"] if key in ("metadata", "location", "parents") else [])
+            for k in gone:
+                if as_none:
+                    t[k] = None
+                else:
+                    t.pop(k, None)
+        exp, exp_index = defaulted(m0, o.snap.has_index, where, key)
         ctx.count("fromdict-optional-key")
         ctx.feature(f"optional-key:{where}/{key}")
-        ok, c = guarded(ctx, f"fromdict-without/{where}/{key}", tskit.TableCollection.fromdict, d2)
+        ctx.feature("optional-key-form:" + ("None" if as_none else "absent"))
+        # the receiving end: TableCollection.fromdict or the LightweightTableCollection other extension modules use
+        ok, c = guarded(ctx, f"fromdict-without/{where}/{key}", dict_receiver(ctx, rng), d2)
         if not ok:
             continue
         got, want = canon_model(from_tables(c)), canon_model(exp)
         if got != want:
             k = diff_keys(got, want)[0]
             ctx.violation(f"fromdict-without/{where}/{key}/differs/{k}",
-                          f"fromdict without {where}/{key}: {k} got {_short(got[k])} expected {_short(want[k])}")
+                          f"fromdict {'with None for' if as_none else 'without'} {where}/{key}: {k} got {_short(got[k])} "
+                          f"expected {_short(want[k])}")
         if c.has_index() != exp_index:
             ctx.violation(f"fromdict-without/{where}/{key}/index-presence",
                           f"has_index()={c.has_index()} expected {exp_index}")
+    # inside the optional groups: a reference sequence / index dict with single members None or absent
+    if "reference_sequence" in d:
+        d2 = dict(d)
+        rs = dict(d["reference_sequence"])
+        key = rng.choice(["data", "url", "metadata", "metadata_schema"])
+        if rng.random() < 0.5:
+            rs[key] = None
+        else:
+            rs.pop(key, None)
+        d2["reference_sequence"] = rs
+        exp = m0.copy()
+        exp.refseq = dict(exp.refseq)
+        exp.refseq[key] = b"" if key == "metadata" else ""
+        ctx.count("fromdict-optional-key")
+        ctx.feature(f"optional-key:reference_sequence/{key}")
+        ok, c = guarded(ctx, f"fromdict-without/reference_sequence/{key}", dict_receiver(ctx, rng), d2)
+        if ok:
+            got, want = canon_model(from_tables(c)), canon_model(exp)
+            if got != want:
+                k = diff_keys(got, want)[0]
+                ctx.violation(f"fromdict-without/reference_sequence/{key}/differs/{k}",
+                              f"fromdict without reference_sequence/{key}: {k} got {_short(got[k])} expected "
+                              f"{_short(want[k])}")
+    if rng.random() < 0.3:
+        d2 = dict(d)
+        d2["indexes"] = rng.choice([{}, {"edge_insertion_order": None, "edge_removal_order": None}])
+        ctx.count("fromdict-optional-key")
+        ctx.feature("optional-key:indexes/members")
+        ok, c = guarded(ctx, "fromdict-without/indexes/members", dict_receiver(ctx, rng), d2)
+        if ok:
+            same(ctx, "fromdict-without/indexes/members", c, o.snap, drop=("/indexes",))
+            if c.has_index():
+                ctx.violation("fromdict-without/indexes/members/index-presence", "an index appeared from an empty dict")
     # a required key removed must be refused (EITHER: which exception), never crash or invent data
     name = rng.choice(sorted(REQUIRED_KEYS))
     key = rng.choice(REQUIRED_KEYS[name])
     d2 = {k: (dict(v) if isinstance(v, dict) else v) for k, v in d.items()}
     del d2[name][key]
+    if rng.random() < 0.4:      # None in place of a required key is refused as well
+        d2[name][key] = None
     ctx.count("fromdict-required-key")
     try:
         c = tskit.TableCollection.fromdict(d2)
@@ -1090,6 +1420,7 @@ COVER = {
     "prov_record": {"ignore_provenance", "ignore_tables"},
     "prov_timestamp": {"ignore_provenance", "ignore_timestamps", "ignore_tables"},
     "table_data": {"ignore_tables"},
+    "table_float_bits": {"ignore_tables"},
     "refseq_data": {"ignore_reference_sequence"},
     "refseq_url": {"ignore_reference_sequence"},
     "refseq_metadata": {"ignore_reference_sequence", "ignore_metadata"},
@@ -1134,6 +1465,9 @@ def repartition(vals, rng):
     out = list(vals)
     out[i], out[i + 1] = vals[i][:-1], vals[i][-1:] + vals[i + 1]
     return out
+
+
+NOTES = []      # feature tags left by perturb() for the caller to register
 
 
 def perturb(kind, b, m, rng):
@@ -1244,9 +1578,28 @@ def perturb(kind, b, m, rng):
                 vals[i] = tuple(vals[i]) + (1.5,)
             else:
                 vals[i] = tuple(vals[i]) + (0,)
-            from lib.tsk import pack_ragged
             d[col], d[col + "_offset"] = pack_ragged(k, vals)
         t.set_columns(**d)
+        return name
+    if kind == "table_float_bits":
+        # "byte-wise identical": -0.0 is not 0.0, and a NaN with another payload (e.g. the unknown-time marker against
+        # the standard NaN) is another value.  Applicable whenever some table holds a zero or a NaN (nearly always:
+        # sample times, left = 0, unknown mutation times).
+        spots = [(n_, c_, i_) for n_ in META_TABLES for j_, (c_, k_) in enumerate(SPEC[n_]) if k_ in ("f8", "T")
+                 for i_, row in enumerate(getattr(m, n_))
+                 if row[j_] is None or row[j_] == 0.0 or row[j_] != row[j_]]
+        if not spots:
+            return None
+        nans = [sp for sp in spots if getattr(m, sp[0])[sp[2]][[c for c, _ in SPEC[sp[0]]].index(sp[1])] != 0.0]
+        name, col, i = rng.choice(nans if nans and rng.random() < 0.5 else spots)
+        t = getattr(b, name)
+        d = t.asdict()
+        a = d[col].copy()
+        bits = a.view(np.uint64)
+        bits[i] ^= np.uint64(1 << 63) if a[i] == 0.0 else np.uint64(1)
+        d[col] = a
+        t.set_columns(**d)
+        NOTES.append("perturb:float-bits:" + ("zero-sign" if a[i] == 0.0 else "nan-payload"))
         return name
     if kind == "refseq_data":
         b.reference_sequence.data = (m.refseq["data"] if m.refseq else "") + "A"
@@ -1270,7 +1623,10 @@ def perturb(kind, b, m, rng):
         return True
     if kind == "sequence_length":
         L = b.sequence_length
-        b.sequence_length = L * 2 if L * 2 != L and math.isfinite(L * 2) else L / 2
+        L2 = L * 2 if L * 2 != L and math.isfinite(L * 2) else L / 2
+        if L2 == L or not L2 > 0:       # +inf, the smallest subnormal
+            L2 = 1.0
+        b.sequence_length = L2
         return True
     if kind == "index":
         if b.has_index():
@@ -1406,12 +1762,14 @@ def run_equality(case, ctx, rng, tmp):
             continue
         done += 1
         ctx.feature("perturb:" + kind)
+        while NOTES:
+            ctx.feature(NOTES.pop())
         check_pair(ctx, a, b, (kind,), flag_subsets(rng), kind)
         check_pair(ctx, b, a, (kind,), flag_subsets(rng, 6), kind + "(swapped)")
         ctx.count("eq-operator")
         if (a == b) is not predict((kind,), ()):
             ctx.violation(f"eq-operator/{kind}", f"a == b is {a == b} with b perturbed in {kind}")
-        if kind in ("row_metadata", "table_schema", "prov_record", "prov_timestamp", "table_data"):
+        if kind in ("row_metadata", "table_schema", "prov_record", "prov_timestamp", "table_data", "table_float_bits"):
             check_tables_pair(ctx, a, b, kind, touched)
         if kind.startswith("refseq_"):
             for ign in (False, True):
@@ -1438,6 +1796,7 @@ def run_equality(case, ctx, rng, tmp):
                                       f"documented answer {want}")
                 if (tsa == tsb) is not predict((kind,), ()):
                     ctx.violation(f"ts-eq-operator/{kind}", f"ts == other is {tsa == tsb}")
+    del NOTES[:]
     # two classes at once: every class must be covered
     for _ in range(4):
         k1, k2 = rng.sample(list(COVER), 2)
@@ -1446,7 +1805,7 @@ def run_equality(case, ctx, rng, tmp):
         if t1 is None:
             continue
         # the second perturbation reads current values from the model; keep them independent
-        if {k1, k2} <= {"row_metadata", "table_schema", "table_data"} or \
+        if {k1, k2} <= {"row_metadata", "table_schema", "table_data", "table_float_bits"} or \
                 {k1, k2} <= {"prov_record", "prov_timestamp"} or \
                 {k1, k2} <= {"ts_metadata", "ts_schema"} or {k1, k2} <= {"refseq_metadata", "refseq_schema"}:
             continue
@@ -1455,11 +1814,364 @@ def run_equality(case, ctx, rng, tmp):
             continue
         ctx.feature("perturb-pair")
         check_pair(ctx, a, b, (k1, k2), flag_subsets(rng, 24), f"{k1}+{k2}")
+    del NOTES[:]
 
 
 # =============================================================================================
+# case: chain (a history on one object)
+# =============================================================================================
+CHAIN_STEPS = ("path", "handle", "tskit.load", "pickle", "copy", "copy.copy", "copy.deepcopy", "dict", "dict64", "lwt",
+               "ts-pickle", "load_tables", "touch", "touch")
 
-RUNNERS = {"stream": run_stream, "path": run_path, "interchange": run_interchange, "equality": run_equality}
+
+def touch(tc, j):
+    """Rows appended through the raw column interface (no codec involved); keeps a valid tree sequence valid."""
+    tc.provenances.add_row(f"step {j}", timestamp="t")
+    tc.nodes.append_columns(flags=np.array([0], dtype=np.uint32), time=np.array([0.0]))
+    tc.populations.append_columns(metadata=np.array([], dtype=np.int8), metadata_offset=np.array([0, 0], dtype=np.uint64))
+
+
+def run_chain(case, ctx, rng, tmp):
+    o = Obj(rng, ctx, allow_big=False)
+    ctx.sig(repr(o.snap.cm), nontrivial=o.nrows() > 0)
+    cur = o.tc
+    # the twin is built again from the rows and never serialised; it receives the same "touch" edits
+    ref = build_tc(o.m, o.opts)
+    if o.snap.has_index and not ref.has_index():
+        ref.build_index()
+    snap = o.snap
+    nsteps = rng.randint(3, 6)
+    for j in range(nsteps):
+        step = rng.choice(CHAIN_STEPS)
+        if step in ("tskit.load", "ts-pickle", "load_tables") and not (o.valid and cur.has_index()):
+            step = rng.choice(["path", "handle", "pickle", "dict", "lwt"])
+        ctx.feature("chain-step:" + step)
+        what = "chain/" + step
+        p = os.path.join(tmp, f"c{j}.trees")
+        if step == "touch":
+            touch(cur, j)
+            touch(ref, j)
+            snap = Snap(ref)
+            new = cur
+            ok = True
+        elif step in ("path", "handle", "tskit.load"):
+            dform = rng.choice(forms.PATH_FORMS if step == "path" else forms.HANDLE_FORMS if step == "handle"
+                               else forms.DUMP_FORMS)
+            lform = rng.choice(forms.PATH_FORMS if step == "path" else forms.HANDLE_FORMS if step == "handle"
+                               else forms.LOAD_FORMS)
+            ok, _ = guarded(ctx, f"{what}/dump-{dform}", forms.dump_form, cur, p, dform)
+            if ok:
+                lname = "TableCollection.load" if step != "tskit.load" else rng.choice(["tskit.load", "TreeSequence.load"])
+                ok, new = guarded(ctx, f"{what}/{lname}/{lform}", forms.load_form, LOADERS[lname][0], LOADERS[lname][1],
+                                  p, lform)
+                if ok:
+                    new = tc_of(new)
+        elif step == "pickle":
+            proto = rng.randrange(0, pickle.HIGHEST_PROTOCOL + 1)
+            ok, new = guarded(ctx, what, lambda: pickle.loads(pickle.dumps(cur, proto)))
+        elif step == "copy":
+            ok, new = guarded(ctx, what, cur.copy)
+        elif step == "copy.copy":
+            ok, new = guarded(ctx, what, copymod.copy, cur)
+        elif step == "copy.deepcopy":
+            ok, new = guarded(ctx, what, copymod.deepcopy, cur)
+        elif step == "dict":
+            ok, new = guarded(ctx, what, lambda: tskit.TableCollection.fromdict(cur.asdict()))
+        elif step == "dict64":
+            ok, new = guarded(ctx, what, lambda: tskit.TableCollection.fromdict(cur.asdict(force_offset_64=True)))
+        elif step == "lwt":
+            f64 = rng.random() < 0.5
+            ok, new = guarded(ctx, what, lambda: via_lwt(cur.asdict(), f64))
+        elif step == "ts-pickle":
+            proto = rng.randrange(0, pickle.HIGHEST_PROTOCOL + 1)
+            ok, new = guarded(ctx, what, lambda: pickle.loads(pickle.dumps(cur.tree_sequence(), proto)).dump_tables())
+        else:   # load_tables
+            bi = rng.random() < 0.5
+            ok, new = guarded(ctx, what, lambda: tskit.TreeSequence.load_tables(cur, build_indexes=bi).dump_tables())
+        if not ok:
+            return
+        if not same(ctx, "chain", new, snap):
+            ctx.violation(f"{what}/differs-after-history", f"step {j} ({step}) of a chain of transports changed the object")
+            return
+        # lossless => equal, in both directions, under any flags; and assert_equals agrees
+        fl = rng.choice(flag_subsets(rng))
+        kw = {f: True for f in fl}
+        ctx.count("chain-equals")
+        for x, y, lab in ((ref, new, "twin.equals(travelled)"), (new, ref, "travelled.equals(twin)")):
+            try:
+                eq = x.equals(y, **kw)
+                x.assert_equals(y, **kw)
+                raised = False
+            except AssertionError:
+                raised = True
+            except Exception as e:  # noqa: BLE001
+                ctx.violation(f"{what}/equals-raised-{type(e).__name__}", f"{lab}({kw}) raised {e}")
+                continue
+            if eq is not True or raised:
+                ctx.violation(f"{what}/not-equal-to-twin",
+                              f"after step {j} ({step}) the object is column-byte-wise the twin, but {lab}({', '.join(fl)}) "
+                              f"= {eq!r} and assert_equals {'raised' if raised else 'returned'}")
+        cur = new
+
+
+# =============================================================================================
+# case: large (structurally extreme objects, forced)
+# =============================================================================================
+LARGE_SHAPES = ("rows", "rows", "entry", "entry", "column", "refseq", "text", "text", "star")
+N16 = 1 << 16
+
+
+def np_columns(name, n, nrs, lens=None):
+    """n rows of small random values for table `name`, built column-wise (numpy only, no Python per-row work).
+    lens: {ragged column: array of per-row lengths}; default 0..2 items per row."""
+    cols = {}
+    for col, kind in SPEC[name]:
+        if kind == "u4":
+            cols[col] = nrs.randint(0, 4, size=n).astype(np.uint32)
+        elif kind == "i4":
+            cols[col] = nrs.randint(-1, 5, size=n).astype(np.int32)
+        elif kind == "f8":
+            cols[col] = nrs.randint(0, 64, size=n) / 8.0
+        elif kind == "T":
+            t = nrs.randint(0, 64, size=n) / 8.0
+            t[nrs.rand(n) < 0.3] = tskit.UNKNOWN_TIME
+            cols[col] = t
+        else:
+            ln = (lens or {}).get(col)
+            if ln is None:
+                ln = nrs.randint(0, 3, size=n)
+            total = int(ln.sum())
+            cols[col + "_offset"] = np.concatenate([[0], np.cumsum(ln)]).astype(np.uint64)
+            if kind in ("B", "S"):
+                cols[col] = nrs.randint(65, 91, size=total).astype(np.int8)
+            elif kind == "Rf8":
+                cols[col] = nrs.randint(0, 64, size=total) / 8.0
+            else:
+                cols[col] = nrs.randint(-1, 5, size=total).astype(np.int32)
+    return cols
+
+
+def gen_large(rng, ctx):
+    shape = rng.choice(LARGE_SHAPES)
+    nrs = np.random.RandomState(rng.getrandbits(32))
+    tc = tskit.TableCollection(rng.choice([1.0, 1000.0, 0.5]))
+    near = lambda: N16 + rng.choice([-1, 0, 1, 2, 255, 4465])     # noqa: E731  around the 16-bit boundary
+    ragged = [(n, c) for n in RowModel.TABLES for c, k in SPEC[n] if k in ("B", "S", "Rf8", "Ri4")]
+    tag = shape
+    valid = False
+    if shape == "rows":
+        name = rng.choice(RowModel.TABLES)
+        getattr(tc, name).set_columns(**np_columns(name, near(), nrs))
+        tag += ":" + name
+    elif shape == "entry":
+        name, col = rng.choice(ragged)
+        n = rng.randint(1, 5)
+        ln = nrs.randint(0, 3, size=n)
+        ln[rng.randrange(n)] = near()
+        getattr(tc, name).set_columns(**np_columns(name, n, nrs, {col: ln}))
+        tag += f":{name}/{col}"
+    elif shape == "column":
+        name, col = rng.choice(ragged)
+        n = rng.choice([1500, 3000])
+        getattr(tc, name).set_columns(**np_columns(name, n, nrs, {col: nrs.randint(0, 120, size=n)}))
+        tag += f":{name}/{col}"
+    elif shape == "refseq":
+        k = (1 << 20) * rng.randint(1, 3) + rng.choice([-1, 0, 1, 7])
+        tc.reference_sequence.data = ("ACGT" * (k // 4 + 1))[:k]
+        if rng.random() < 0.5:
+            tc.reference_sequence.url = "http://example.com/" + "u" * rng.choice([0, 10, near()])
+        tc.nodes.set_columns(**np_columns("nodes", 5, nrs))
+    elif shape == "text":
+        field = rng.choice(["url", "metadata", "metadata_schema", "time_units", "prov_record", "prov_timestamp",
+                            "table_schema", "refseq_metadata", "refseq_schema"])
+        k = near()
+        tag += ":" + field
+        if field == "url":
+            tc.reference_sequence.url = "u" * k
+        elif field == "metadata":
+            tc.metadata = bytes(nrs.randint(0, 256, size=k).astype(np.uint8))
+        elif field == "time_units":
+            tc.time_units = "t" * k
+        elif field == "prov_record":
+            tc.provenances.add_row("r" * k, timestamp="t")
+        elif field == "prov_timestamp":
+            tc.provenances.add_row("r", timestamp="t" * k)
+        elif field == "refseq_metadata":
+            tc.reference_sequence.metadata = bytes(nrs.randint(0, 256, size=k).astype(np.uint8))
+        else:
+            schema = tskit.MetadataSchema({"codec": "json", "description": "d" * k})
+            if field == "metadata_schema":
+                tc.metadata_schema = schema
+            elif field == "table_schema":
+                # on a table without rows (the node rows below carry raw bytes, which a JSON codec could not decode;
+                # see the EITHER zone on codec-valid metadata)
+                getattr(tc, rng.choice([n for n in META_TABLES if n != "nodes"])).metadata_schema = schema
+            else:
+                tc.reference_sequence.metadata_schema = schema
+        tc.nodes.set_columns(**np_columns("nodes", 3, nrs))
+    else:   # star: one parent, >= 2^16 sample children, indexed; a valid tree sequence
+        n = near()
+        tc.nodes.set_columns(flags=np.concatenate([np.ones(n, dtype=np.uint32), [0]]).astype(np.uint32),
+                             time=np.concatenate([np.zeros(n), [1.0]]))
+        tc.edges.set_columns(left=np.zeros(n), right=np.full(n, tc.sequence_length),
+                             parent=np.full(n, n, dtype=np.int32), child=np.arange(n, dtype=np.int32))
+        tc.build_index()
+        valid = True
+    if shape != "star" and rng.random() < 0.3 and tc.edges.num_rows:
+        ne = tc.edges.num_rows      # a made-up index is storable data
+        tc.indexes = tskit.TableCollectionIndexes(nrs.randint(0, ne, size=ne).astype(np.int32),
+                                                  nrs.randint(0, ne, size=ne).astype(np.int32))
+    ctx.feature("large:" + tag.split("/")[0])
+    return tc, shape, valid
+
+
+def far_end_perturbation(tc, shape, rng):
+    """A copy of tc that differs only at the far end of its big part (last row / last byte)."""
+    b = tc.copy()
+    for name in RowModel.TABLES:
+        t = getattr(b, name)
+        if t.num_rows:
+            t.truncate(t.num_rows - 1) if rng.random() < 0.5 or name == "provenances" else None
+            if t.num_rows == getattr(tc, name).num_rows:
+                d = t.asdict()
+                col, kind = SPEC[name][0]
+                a = d[col].copy()
+                if kind in ("B", "S", "Rf8", "Ri4"):      # populations: only a ragged column
+                    t.truncate(t.num_rows - 1)
+                else:
+                    a[-1] = a[-1] + 1
+                    d[col] = a
+                    t.set_columns(**d)
+            return b, {"ignore_tables"}
+    if shape == "refseq":
+        b.reference_sequence.data = tc.reference_sequence.data[:-1] + "T"
+        return b, {"ignore_reference_sequence"}
+    return None, None
+
+
+def cat_stream(ctx, rng, files, snaps, loadable):
+    """The files, concatenated by `cat` into a pipe or a socketpair, load back one by one.  Nothing on the reading side
+    may rely on the kernel handing over a whole object (or a whole array) in one read()."""
+    transport = rng.choice(["pipe", "socket"])
+    ctx.feature("cat-stream:" + transport)
+    env = {"PATH": "/usr/bin:/bin"}
+    sb = None
+    if transport == "pipe":
+        rfd, wfd = os.pipe()
+        proc = subprocess.Popen(["cat"] + files, stdin=subprocess.DEVNULL, stdout=wfd, env=env)
+        os.close(wfd)
+        r = os.fdopen(rfd, "rb")
+    else:
+        sa, sb = socket.socketpair()
+        proc = subprocess.Popen(["cat"] + files, stdin=subprocess.DEVNULL, stdout=sa.fileno(), env=env)
+        sa.close()
+        r = sb.makefile("rb")
+    try:
+        for j, snap in enumerate(snaps):
+            lname = rng.choice(["tskit.load", "TreeSequence.load"]) if loadable[j] and rng.random() < 0.5 \
+                else "TableCollection.load"
+            arg = r if rng.random() < 0.6 else r.fileno()
+            ctx.count("cat-stream-load")
+            ok, got = guarded(ctx, f"cat-stream/{transport}/{lname}", LOADERS[lname][0], arg)
+            if not ok:
+                return
+            same(ctx, "cat-stream-load", tc_of(got), snap, light=snap.cm is None)
+        expect_eof(ctx, "cat-" + transport, r, rng, None)
+    finally:
+        r.close()
+        if sb is not None:
+            sb.close()
+        try:
+            proc.wait(timeout=20)
+        except subprocess.TimeoutExpired:
+            proc.kill()
+            proc.wait()
+
+
+def run_large(case, ctx, rng, tmp):
+    tc, shape, valid = gen_large(rng, ctx)
+    snap = Snap(tc, light=True)
+    ctx.sig((shape, sorted((k, len(v[1])) for k, v in snap.tb.items()), rng.getrandbits(32)), nontrivial=True)
+    p = os.path.join(tmp, "big.trees")
+    dform = rng.choice(forms.DUMP_FORMS)
+    ok, _ = guarded(ctx, "large/dump-" + dform, forms.dump_form, tc, p, dform)
+    if not ok:
+        return
+    b = open(p, "rb").read()
+    check_file_against_dict(ctx, "large/dump", b, tc)
+    del b
+    lform = rng.choice(forms.LOAD_FORMS)
+    ok, got = guarded(ctx, "large/load-" + lform, forms.load_form, tskit.TableCollection.load, "file_or_path", p, lform)
+    if ok:
+        same(ctx, "large-path-load", got, snap, light=True)
+        ctx.count("large-equals")
+        if not tc.equals(got) or not got.equals(tc):
+            ctx.violation("large/loaded-not-equal", f"{shape}: the loaded collection is byte-identical but equals() is False")
+    if valid:
+        ok, ts = guarded(ctx, "large/tskit.load", tskit.load, p)
+        if ok:
+            same(ctx, "large-path-load", ts.dump_tables(), snap, light=True)
+            check_ts_surface(ctx, "large-path-load", ts, snap)
+    skip = rng.choice([{"skip_tables": True}, {"skip_reference_sequence": True}])
+    ok, got = guarded(ctx, "large/skip-load", tskit.TableCollection.load, p, **skip)
+    if ok:
+        ctx.count("skip-load")
+        a, bb = tb_dict(got), dict(snap.tb)
+        drop = ["/reference_sequence"] if "skip_reference_sequence" in skip else \
+            ["/" + n for n in RowModel.TABLES] + ["/indexes"]
+        if strip(a, drop) != strip(bb, drop):
+            k = diff_keys(strip(a, drop), strip(bb, drop))[0]
+            ctx.violation(f"large/skip-load/differs{k}", f"{shape}: load({skip}) differs in {k}")
+    proto = rng.randrange(0, pickle.HIGHEST_PROTOCOL + 1)
+    ok, got = guarded(ctx, "large/pickle", lambda: pickle.loads(pickle.dumps(tc, proto)))
+    if ok:
+        same(ctx, "large-pickle", got, snap, light=True)
+    ok, got = guarded(ctx, "large/copy", rng.choice([tc.copy, lambda: copymod.deepcopy(tc)]))
+    if ok:
+        same(ctx, "large-copy", got, snap, light=True)
+    f64 = rng.random() < 0.5
+    ok, got = guarded(ctx, "large/dict", lambda: rng.choice([tskit.TableCollection.fromdict, via_lwt])(
+        tc.asdict(force_offset_64=f64)))
+    if ok:
+        same(ctx, "large-dict", got, snap, light=True)
+    # per table, the big one included
+    for name in RowModel.TABLES:
+        t = getattr(tc, name)
+        if t.num_rows:
+            exp = table_bytes(t)
+            ok, c = guarded(ctx, f"large/table-copy/{name}", rng.choice([t.copy, lambda: pickle.loads(pickle.dumps(t))]))
+            if ok:
+                ctx.count("table-copy")
+                if table_bytes(c) != exp:
+                    ctx.violation(f"large/table-copy/{name}/differs", f"{shape}: copy / pickle of table {name} differs")
+    # a difference at the far end is seen
+    b2, cover = far_end_perturbation(tc, shape, rng)
+    if b2 is not None:
+        ctx.count("large-equals")
+        if tc.equals(b2) or not tc.equals(b2, **{f: True for f in cover}):
+            ctx.violation("large/far-end-difference", f"{shape}: equals() = {tc.equals(b2)} for a copy changed in its last "
+                          f"row / byte; with {sorted(cover)}: {tc.equals(b2, **{f: True for f in cover})}")
+        if shape not in ("rows", "star", "column"):      # assert_equals walks rows in Python
+            try:
+                tc.assert_equals(b2)
+                ctx.violation("large/far-end-difference/assert_equals", f"{shape}: assert_equals returned")
+            except AssertionError:
+                pass
+            except Exception as e:  # noqa: BLE001  (all metadata here is raw bytes without a schema, or empty)
+                ctx.violation(f"large/far-end-difference/assert_equals-raised-{type(e).__name__}",
+                              f"{shape}: assert_equals raised {type(e).__name__}: {e}")
+    # several objects, far larger than a pipe / socket buffer, back to back on a non-seekable stream
+    small = Obj(rng, ctx, allow_big=False)
+    ps = os.path.join(tmp, "small.trees")
+    ok, _ = guarded(ctx, "dump-path", small.dumper.dump, ps)
+    if ok:
+        order = rng.choice([(0, 1, 0), (1, 0, 0), (0, 0, 1), (0, 1)])
+        files, snaps, loadable = [p, ps], [snap, small.snap], [valid, small.ts_loadable]
+        cat_stream(ctx, rng, [files[i] for i in order], [snaps[i] for i in order], [loadable[i] for i in order])
+
+
+RUNNERS = {"stream": run_stream, "path": run_path, "interchange": run_interchange, "equality": run_equality,
+           "chain": run_chain, "large": run_large}
 
 
 def run_case(case, ctx):
